@@ -3768,6 +3768,9 @@ def plain_column_projection(expr, parent, dependents, additional_columns=None):
 
 
 def is_filter_pushdown_available(expr, parent, dependents, allow_reduction=True):
+    if parent.predicate.ndim == 2:
+        # A DataFrame predicate masks individual cells, it does not select rows
+        return False
     parents = [x() for x in dependents[expr._name] if x() is not None]
     filters = {e._name for e in parents if isinstance(e, Filter)}
     if len(filters) != 1:
